@@ -3,6 +3,7 @@ import RbV.Basic.AlignCodec
 import RbV.Ref.Gotoh
 import RbV.Ref.Banded
 import RbV.Model.Band
+import RbV.Model.BandedDP
 /-! Driver for property C02: banded alignment sound, exact when the band is the whole matrix, budget guard.
 
 `c02 const => min:<MIN_SCORE>`
@@ -135,13 +136,24 @@ def checkCall (sc : Sc) (cl : Clip) (k w : Nat) (idx : Nat) (c : Call) (outS : S
       else if !rest.contains "h:same" then .error "bad-op no-history-field"
       else match bandTags cl' k w x y rest with
       | none => .error "bad-op band-fields"
-      | some (btags, _) =>
+      | some (btags, mb) =>
+        -- mirror of `compute_alignment` on the model band, next to the code: whole result (drift, never a violation)
+        let mtags := match mb with
+          | none => []
+          | some b =>
+            match Model.BandedDP.computeAlignment sc cl' x y b with
+            | none => ["drift-band-model-no-termination"]
+            | some r =>
+              -- `local`/`semiglobal*` filter the clip operations out of the result
+              let r : Out := if filt then { r with ops := r.ops.filter (fun a => match a with | .core _ => true | _ => false) } else r
+              if r == o then ["band-model=impl"]
+                        else if r.score == o.score then ["drift-band-model-path"] else ["drift-band-model"]
         let core := coreOps o.ops
         -- coverage only: how often the band loses the optimum (never a violation)
         let cmp := if !full && x.length ≤ 12 && y.length ≤ 12 then
             (if o.score = opt sc cl' x y then ["band=opt"] else ["band<opt"]) else []
         .ok ((if !x.isEmpty && !y.isEmpty && !core.isEmpty then ["nt"] else [])
-          ++ [c.entry] ++ cmp ++ btags
+          ++ [c.entry] ++ cmp ++ btags ++ mtags
           ++ (if full then ["fullband"] else ["banded"])
           ++ (if !small then ["big"] else [])
           ++ (if x.isEmpty || y.isEmpty then ["emptyseq"] else [])
